@@ -817,7 +817,7 @@ fn debug(args: &[String]) -> i32 {
         let r = ex.update(u);
         println!("update -> {:?} panics {:?}", r.result, r.panics);
       }
-      Op::Check => {}
+      Op::Check | Op::Wallet(_) | Op::WalletLock(_) => {}
     }
   }
   ex.sim.snapshot(|s| {
